@@ -137,6 +137,74 @@ def check_final_memory(cfg, cs, mem):
     return None
 
 
+SCENARIOS = [
+    # (name, aggressor: (we, rows cycling on bank 0), victim: (we, bank))
+    ("altrow-reads-vs-reads-other-bank", (0, [1, 2]), (0, 1)),
+    ("altrow-writes-vs-reads-other-bank", (1, [1, 2, 3]), (0, 1)),
+    ("samerow-reads-vs-writes-other-bank", (0, [4]), (1, 1)),
+    ("samerow-writes-vs-reads-other-bank", (1, [5]), (0, 1)),
+]
+
+
+def adversary_job(args):
+    """Directed adversary: port A streams back-to-back commands on bank 0 for ever; port B (victim) keeps offering single
+    commands on another bank.  Every victim latency (offer->accept, accept->strobe) must stay within Bound(cfg)."""
+    from migen import run_simulation
+    seed, k = args
+    name, (awe, arows), (vwe, vbank) = SCENARIOS[k]
+    rnd = random.Random("c05-adv-%d-%d" % (seed, k))
+    while True:
+        cfg = corelib.rand_core_cfg(rnd)
+        if cfg["nphases"] <= 2:
+            break
+    cfg["nmasters"] = 2; cfg["bba"] = 0; cfg["bankbits"] = 1
+    cfg["ctrl"].update(read_time=8, write_time=8, cmd_buffer_depth=rnd.choice([2, 4]), refresh_postponing=1, with_refresh=True, with_auto_precharge=True)
+    cfg["timing"].update(tRFC=4, tFAW=None, tRC=None, tRAS=None, tZQCS=None, tREFI=100)
+    B = latency_bound(cfg)
+    N = 3 * B
+    dut = corelib.build_core(cfg)
+    A, V = dut.ports
+    split = cfg["colbits"] - cfg["align"]
+    bb = cfg["bankbits"]
+    r = Result()
+    res = dict(worst=0, viol=None, served=0)
+
+    def gen():
+        yield A.rdata.ready.eq(1); yield V.rdata.ready.eq(1)
+        yield A.wdata.valid.eq(1); yield V.wdata.valid.eq(1); yield A.wdata.we.eq(0xff); yield V.wdata.we.eq(0xff)
+        ka = 0
+        v_state = "idle"; v_t0 = 0; gap = 0
+        for t in range(N):
+            a_addr = rnd.randrange(1 << split) | (0 << split) | (arows[ka % len(arows)] << (split + bb))
+            yield A.cmd.valid.eq(1); yield A.cmd.we.eq(awe); yield A.cmd.addr.eq(a_addr)
+            if v_state == "idle" and gap == 0:
+                v_state = "offer"; v_t0 = t
+                yield V.cmd.addr.eq(rnd.randrange(1 << split) | (vbank << split) | (rnd.randrange(4) << (split + bb)))
+            yield V.cmd.valid.eq(1 if v_state == "offer" else 0); yield V.cmd.we.eq(vwe)
+            yield
+            if (yield A.cmd.ready):
+                ka += 1
+            if v_state == "offer" and (yield V.cmd.ready):
+                res["worst"] = max(res["worst"], t - v_t0); v_state = "wait"; v_t0 = t
+            elif v_state == "wait" and ((yield V.wdata.ready) if vwe else (yield V.rdata.valid)):
+                res["worst"] = max(res["worst"], t - v_t0); v_state = "idle"; gap = rnd.randrange(0, 6); res["served"] += 1
+            elif v_state == "idle" and gap:
+                gap -= 1
+            if v_state in ("offer", "wait") and t - v_t0 > B and res["viol"] is None:
+                res["viol"] = (v_state, t, t - v_t0)
+    run_simulation(dut, gen())
+    r.evaluations += N
+    r.distinct.add(("adv", seed, k))
+    r.coverage["adversary_scenarios"] = 1
+    r.coverage["adversary_worst_latency"] = {name: res["worst"]}
+    if res["viol"]:
+        st, t, w = res["viol"]
+        r.violations.append(dict(signature="c05-adversary", what="%s 1:%d, scenario %s: the victim's command has been %s for %d cycles at cycle %d (Bound(cfg) = %d); victim accesses served so far: %d"
+                                 % (cfg["memtype"], cfg["nphases"], name, "offered without being accepted" if st == "offer" else "accepted without receiving its strobe",
+                                    w, t, B, res["served"]), replay=dict(config=cfg, scenario=name, seed=seed)))
+    return r
+
+
 def run(prop, tier, seed):
     n = {"quick": 16, "thorough": 160}[tier]
     ncycles = 450 if tier == "quick" else 2500
@@ -144,6 +212,8 @@ def run(prop, tier, seed):
     jobs = [(job, (seed, i, ncycles, prop)) for i in range(n)]
     if prop == "C05":
         jobs.insert(0, (lockout_demo, seed))
+        for k in range(len(SCENARIOS)):
+            jobs.insert(0, (adversary_job, (seed, k)))
     for r in core.pmap(_dispatch, jobs):
         res.merge(r)
     return res
